@@ -4,6 +4,7 @@ package conntrack
 
 import (
 	"fmt"
+	"net/netip"
 	"strings"
 	"testing"
 
@@ -120,8 +121,42 @@ type flow struct {
 	p    firewall.Packet
 }
 
-func gen(r *hlib.Rand, n int, tier, profile string, emit func(string, ...any)) {
+// meaningFamily: reloads that keep the rule text but change what it means (default_local_cidr_any flipped, the
+// certificate's unsafe networks removed / replaced), with a tracked flow to an address in an unsafe network.
+func meaningFamily(emit func(string, ...any)) int {
 	ops := 0
+	type step struct{ dlca, unsafe string }
+	for _, sc := range [][]step{
+		{{"1", "c0a80000/16"}, {"0", "c0a80000/16"}},
+		{{"0", "c0a80000/16"}, {"1", "c0a80000/16"}, {"0", "c0a80000/16"}},
+		{{"1", "c0a80000/16"}, {"1", "-"}, {"1", "c0a80000/16"}},
+		{{"1", "c0a80000/16"}, {"0", "ac100000/12"}},
+		{{"0", "-"}, {"0", "c0a80000/16"}},
+	} {
+		for _, ruleDir := range []string{"in", "out"} {
+			emit("reset %s %d %d %d 0 me 0a000001/8 %s - ca1", sc[0].dlca, 60*sec, 60*sec, 60*sec, sc[0].unsafe)
+			emit("peer p0 h1 0a000002/8 - g1 ca1")
+			emit("rule %s 0 0 0 - any - - - -", ruleDir)
+			for i, st := range sc {
+				if i > 0 {
+					emit("stage %s 0 0 0 - any - - - -", ruleDir)
+					emit("reload %s %d %d %d 0 %s", st.dlca, 60*sec, 60*sec, 60*sec, st.unsafe)
+					ops++
+				}
+				for _, local := range []string{"c0a80105", "0a000001"} {
+					for _, d := range []string{"in", "out", "in"} {
+						emit("drop p0 %s %s 0a000002 80 4000 6 0", d, local)
+						ops++
+					}
+				}
+			}
+		}
+	}
+	return ops
+}
+
+func gen(r *hlib.Rand, n int, tier, profile string, emit func(string, ...any)) {
+	ops := meaningFamily(emit)
 	for ops < n {
 		w := fwlib.GenWorld(r, 3)
 		durs := []uint64{2 * sec, 3 * sec, 5 * sec, 10 * sec, 60 * sec}
@@ -167,6 +202,17 @@ func gen(r *hlib.Rand, n int, tier, profile string, emit func(string, ...any)) {
 		if r.Chance(4, 5) {
 			w.Rules = append(w.Rules, fwlib.Rule{Incoming: r.Bool(), Proto: hlib.Pick(r, uint8(0), 0, 6, 17), Host: "any", LocalCidr: "any"})
 		}
+		// reloads that change what unchanged rules mean: this node has unsafe networks, a rule without local_cidr
+		// (its local side is "any" only under default_local_cidr_any / without unsafe networks)
+		meaning := reloads && r.Chance(1, 2)
+		if meaning {
+			if len(w.My.CUnsafe) == 0 {
+				w.My.CUnsafe = append(w.My.CUnsafe, fwlib.RandPrefixAround(r, fwlib.RandAddr(r, w.My.CNets[0].Addr().Is6())).Masked())
+			}
+			w.DLCA = r.Chance(3, 4)
+			w.Rules = append(w.Rules, fwlib.Rule{Incoming: r.Bool(), Proto: hlib.Pick(r, uint8(0), 6, 17), Host: "any"})
+		}
+		curUnsafe := append([]netip.Prefix(nil), w.My.CUnsafe...)
 		w.EmitSetup(emit, tcp, udp, dflt, cache)
 		if reloads && r.Chance(1, 3) {
 			emit("version %d", hlib.Pick(r, 65533, 65534, 65535, 65535, 7))
@@ -279,6 +325,54 @@ func gen(r *hlib.Rand, n int, tier, profile string, emit func(string, ...any)) {
 				if !reloads {
 					continue
 				}
+				if meaning && r.Chance(1, 2) {
+					// a flow whose local address lies in one of this node's unsafe networks, tracked; then a reload
+					// with the same rule text but another default_local_cidr_any / other unsafe networks in the
+					// certificate; then the flow again
+					var f flow
+					f.peer = r.Intn(len(w.Peers))
+					f.p, _ = w.GenPacket(r, w.Peers[f.peer])
+					f.p.RemoteAddr = w.Peers[f.peer].CNets[0].Addr()
+					f.p.LocalAddr = w.My.CNets[0].Addr()
+					if len(curUnsafe) > 0 {
+						u := curUnsafe[r.Intn(len(curUnsafe))]
+						if u.Addr().Is6() == f.p.RemoteAddr.Is6() {
+							f.p.LocalAddr = fwlib.AddrIn(r, u)
+						}
+					}
+					flows = append(flows, f)
+					for _, d := range []bool{true, false, r.Bool()} {
+						emit("drop p%d %s %s", f.peer, fwlib.Dir(d), fwlib.PacketTokens(f.p))
+						ops++
+					}
+					newUnsafe := curUnsafe
+					switch r.Intn(5) {
+					case 0, 1, 2:
+						w.DLCA = !w.DLCA
+					case 3: // the certificate loses its unsafe networks / gets them back
+						if len(curUnsafe) > 0 {
+							newUnsafe = nil
+						} else {
+							newUnsafe = append([]netip.Prefix(nil), w.My.CUnsafe...)
+						}
+					default: // another unsafe network
+						newUnsafe = []netip.Prefix{fwlib.RandPrefixAround(r, fwlib.RandAddr(r, f.p.RemoteAddr.Is6())).Masked()}
+					}
+					if r.Bool() {
+						nonce++
+					}
+					for _, ru := range current {
+						emit("stage %s", ru.Tokens())
+					}
+					emit("reload %s %d %d %d %d %s", hlib.B(w.DLCA), timeouts[0], timeouts[1], timeouts[2], nonce, fwlib.PrefixesTok(newUnsafe))
+					curUnsafe = newUnsafe
+					ops++
+					for _, d := range []bool{r.Bool(), true, false} {
+						emit("drop p%d %s %s", f.peer, fwlib.Dir(d), fwlib.PacketTokens(f.p))
+						ops++
+					}
+					continue
+				}
 				var next []fwlib.Rule
 				switch r.Intn(6) {
 				case 0, 1: // the same rules, something else in the section changed
@@ -352,9 +446,16 @@ func newExec(t *testing.T) func([]string) string {
 			}
 			changed := cfg.HasChanged("firewall")
 			old := e.Fw
-			e.Fw = nebula.VerifFwReload(e.L, old, e.My, cfg)
+			my := e.My
+			if len(a) > 6 { // the node's certificate was re-issued with other unsafe networks
+				c := *e.My
+				c.CUnsafe = fwlib.UnPrefixes(a[6])
+				my = &c
+			}
+			e.Fw = nebula.VerifFwReload(e.L, old, my, cfg)
 			switch {
 			case e.Fw != old:
+				e.My = my
 				e.DLCA = dlca
 				return fmt.Sprintf("reloaded %d", nebula.VerifFwRulesVersion(e.Fw)), true
 			case !changed:
